@@ -161,6 +161,10 @@ impl ObjectReceiver {
             return;
         }
         self.push_from_cache(now);
+        if self.state != State::Receiving {
+            // The object has been completed (or has failed) with the packets of the cache
+            return;
+        }
 
         if self.oti.is_none() {
             self.cache(pkt)
